@@ -149,8 +149,8 @@ func (u *Universe) fromMsg(ti *TypeInfo, rv reflect.Value) ([]*Val, []byte, erro
 			if err != nil {
 				return nil, nil, err
 			}
-			if isMsg {
-				out = append(out, v) // pointer message: (m ...) itself carries presence
+			if isMsg || v.T == 'o' {
+				out = append(out, v) // pointer message / pointer cast: (m ...) resp. (o x) itself carries presence
 			} else {
 				out = append(out, vSome(v))
 			}
@@ -292,7 +292,7 @@ func (u *Universe) toMsg(ti *TypeInfo, fs []*Val, unrec []byte, rv reflect.Value
 			wt := ti.wrap[f.Num]
 			w := reflect.New(wt)
 			inner := v
-			if v.T == 'o' {
+			if v.T == 'o' && w.Elem().Field(0).Kind() != reflect.Ptr {
 				inner = v.L[0]
 			}
 			if err := u.toGo(ti.S, f, inner, w.Elem().Field(0), o); err != nil {
